@@ -66,7 +66,7 @@ package cache
 //@ ghost held Int
 //@ pred lruOf(m) = fieldowner(m, "disk.diskCache", "mu").lru
 //@ modset lruState(l) = l.currentSize, l.reservedSize, l.uncompressedSize, l.totalDiskSizePeak, l.ll.seq, mapof(l.cache),
-//@    #list.Element.owner, #list.Element.Value, #disk.lruItem.size, #disk.lruItem.sizeOnDisk, #disk.lruItem.legacy, #disk.lruItem.random, #disk.entry.key, evq, qobs
+//@    #list.Element.owner, #list.Element.Value, #disk.lruItem.size, #disk.lruItem.sizeOnDisk, #disk.lruItem.legacy, #disk.lruItem.random, #disk.entry.key, evq, evN, qobs
 
 //@ extern (*sync.Mutex).Lock@cache/disk.diskCache.mu(m)
 //@   requires nodeadlock: !muHeld
